@@ -25,9 +25,16 @@ for c in CANONICAL:
 for v in FMT:
     if v[1] not in 'Qq':       # the 64-bit formats are left out of the canonical lemma (their byte-identity obligation does not discharge in the budget)
         PROGRAMS.append(dict(program='canonical', cls='FormatField', tags=('C02',), variant=v))
+for _c in ('Enum', 'Mapping'):
+    PROGRAMS.append(dict(program='labels_accepted', cls=_c, tags=('C02', 'C13')))
+PROGRAMS.append(dict(program='flags_accepted', cls='FlagsEnum', tags=('C02', 'C13')))
 PROGRAMS.append(dict(program='lazy_list', cls='LazyArray', tags=('C16',)))
 PROGRAMS.append(dict(program='lazy_struct', cls='LazyStruct', tags=('C16',)))
 from .classes import VariantDict  # noqa
+# Array: stated separately for collecting arrays (proved) and for discard=True (known finding: the empty list that parsing hands back
+# is refused by build whenever count > 0)
+PROGRAMS.append(dict(program='canonical_list', cls='Array', tags=('C02',), variant=VariantDict(discard=False)))
+PROGRAMS.append(dict(program='canonical_accepts', cls='Array', tags=('C02',), variant=VariantDict(discard=True)))
 for _u in (1, 2):
     PROGRAMS.append(dict(program='canonical', cls='NullTerminated', tags=('C02',), variant=VariantDict(term_len=_u)))
 for c in SIZED:
@@ -61,6 +68,10 @@ def _none_domain(eng, st):
 
 def _list_domain(eng, st):
     """value domain of Array: list-like sequences (anything with a length that can be enumerated)"""
+    if 'data0' in st.env and isinstance(getattr(eng, 'variant', None), dict) and 'discard' in eng.variant:
+        # canonical form (C02) is stated once for collecting arrays and once for discard=True
+        d = eng.truth(st.env['self'].fields['discard'], st)
+        st.assume(d if eng.variant['discard'] else t.not_(d))
     if 'obj' not in st.env:
         return
     st.assume(t.app('dyn_sized', t.BOOL, st.env['obj'].t))
@@ -186,3 +197,33 @@ def _lazystruct_domain(eng, st):
 
 DOMAIN['LazyStruct'] = _lazystruct_domain
 HYPOTHESES += ['C16, LazyStruct only - member names pairwise distinct; no member ends the eager parse early with StopFieldError']
+
+
+def _labels_domain(eng, st):
+    """value domain: the wrapped field parses to an integer (Enum) / a hashable value (Mapping); hypothesis from the constructor
+    contract: encmapping and decmapping are built from ONE mapping (Enum: {label: value} both ways; Mapping: decmapping is the inverse
+    of encmapping), so every label decoding can yield is a key of the encode table and is sent back to the value it came from"""
+    if 'x' not in st.env:
+        return
+    selfv = st.env['self']
+    x = st.env['x'].t
+    enc, dec = selfv.fields['encmapping'].ident, selfv.fields['decmapping'].ident
+    if selfv.cls == 'Enum':
+        st.assume(t.app('isint', t.BOOL, x))
+    k = t.var('lbk!', t.VAL)
+    lab = t.app('map_get', t.VAL, dec, k)
+    from .adapters import _hashable
+    st.assume(t.forall([k], t.implies(t.app('map_has', t.BOOL, dec, k),
+                                      t.and_(t.app('map_has', t.BOOL, enc, lab), t.eq(t.app('map_get', t.VAL, enc, lab), k), _hashable(lab), t.not_(t.app('isint', t.BOOL, lab)))),
+                       pats=[[lab]]))
+
+
+def _flags_domain(eng, st):
+    if 'x' not in st.env:
+        return
+    st.assume(t.app('isint', t.BOOL, st.env['x'].t))
+
+
+DOMAIN['Enum'] = DOMAIN['Mapping'] = _labels_domain
+DOMAIN['FlagsEnum'] = _flags_domain
+HYPOTHESES += ['C02 / C13, label tables only - the encode and decode tables are the ones the constructor builds from one mapping (constructor contract): a label that decoding can yield is a non-integer, hashable key of the encode table and is sent back to the value it was decoded from']
